@@ -99,6 +99,9 @@ structure ClassIR where
   fields : List String := []      -- annotated fields / enum members, in order
   uses : List String := []        -- names evaluated when the class statement executes (annotations, defaults)
   fwd : List String := []         -- quoted forward references (resolved when `model_rebuild()` runs)
+  /-- names mentioned only inside a `lambda:` body (`Field(default_factory=lambda: …)`): pyflakes counts them as uses
+      (autoflake keeps their import), CPython evaluates them when the factory is CALLED, not when the class statement runs -/
+  lazy : List String := []
   deriving Repr, DecidableEq, Inhabited
 
 /-- a method of the client class -/
@@ -170,7 +173,7 @@ def scalarImportsOf (cfg : Config) (used : List String) : List Import :=
 def importedNames (is : List Import) : List String := is.flatMap (·.names)
 
 def ModuleIR.usedNames (m : ModuleIR) : List String :=
-  m.classes.flatMap (fun c => c.bases ++ c.uses ++ c.fwd) ++ m.methods.flatMap (·.uses) ++ m.rebuilds
+  m.classes.flatMap (fun c => c.bases ++ c.uses ++ c.fwd ++ c.lazy) ++ m.methods.flatMap (·.uses) ++ m.rebuilds
 
 /-- autoflake `remove_all_unused_imports`: an imported name survives iff the module mentions it
     (pyflakes also reads quoted annotations, hence `fwd`) - or REDEFINES it by a class / function statement
@@ -319,21 +322,65 @@ mutual
     | (_, v) :: rest => exprUses v ++ kvsUses rest
 end
 
-/-- names mentioned by the value of an emitted `AnnAssign`.  The body of a `lambda:` is not evaluated
-    when the class statement runs, but pyflakes counts it as a use (autoflake keeps the import). -/
+mutual
+  /-- names an emitted default expression evaluates when the class statement executes: everything outside `lambda:` bodies -/
+  def exprEager : InputGen.PyExpr → List String
+    | .name s => [dottedHead s]
+    | .list xs => exprsEager xs
+    | .dict kvs => kvsEager kvs
+    | .fieldFactory _ => ["Field"]
+    | .fieldFactoryModel _ _ => ["Field"]
+    | _ => []
+  def exprsEager : List InputGen.PyExpr → List String
+    | [] => []
+    | x :: xs => exprEager x ++ exprsEager xs
+  def kvsEager : List (String × InputGen.PyExpr) → List String
+    | [] => []
+    | (_, v) :: rest => exprEager v ++ kvsEager rest
+end
+
+mutual
+  /-- names an emitted default expression mentions inside `lambda:` bodies only -/
+  def exprLazy : InputGen.PyExpr → List String
+    | .list xs => exprsLazy xs
+    | .dict kvs => kvsLazy kvs
+    | .fieldFactory b => exprUses b
+    | .fieldFactoryModel _ a => exprUses a
+    | _ => []
+  def exprsLazy : List InputGen.PyExpr → List String
+    | [] => []
+    | x :: xs => exprLazy x ++ exprsLazy xs
+  def kvsLazy : List (String × InputGen.PyExpr) → List String
+    | [] => []
+    | (_, v) :: rest => exprLazy v ++ kvsLazy rest
+end
+
+/-- names the value of an emitted `AnnAssign` evaluates when the class statement runs -/
 def valueUses : InputField.Value → List String
   | .absent => []
-  | .expr e => exprUses e
+  | .expr e => exprEager e
   | .field _ .none => ["Field"]
-  | .field _ (.default e) => "Field" :: exprUses e
-  | .field _ (.factory b) => "Field" :: exprUses b
-  | .field _ (.factoryModel _ a) => "Field" :: exprUses a
+  | .field _ (.default e) => "Field" :: exprEager e
+  | .field _ (.factory _) => ["Field"]
+  | .field _ (.factoryModel _ _) => ["Field"]
+
+/-- names the value mentions inside a `lambda:` only.  The body of a `lambda:` is not evaluated when the class statement
+    runs (`Field(default_factory=lambda: globals()["In2"].model_validate({"c": In2.B}))` imports whether or not `In2` is
+    defined yet), but pyflakes counts it as a use (autoflake keeps the import). -/
+def valueLazy : InputField.Value → List String
+  | .absent => []
+  | .expr e => exprLazy e
+  | .field _ .none => []
+  | .field _ (.default e) => exprLazy e
+  | .field _ (.factory b) => exprUses b
+  | .field _ (.factoryModel _ a) => exprUses a
 
 def inputClassIR (c : InputField.ClassDecl) : ClassIR :=
   let fs := c.fields.filterMap id
   { name := c.name, bases := ["BaseModel"], fields := fs.map (·.py),
     uses := fs.flatMap fun f => inAnnUses f.ann ++ valueUses f.value,
-    fwd := fs.flatMap fun f => inAnnFwd f.ann }
+    fwd := fs.flatMap fun f => inAnnFwd f.ann,
+    lazy := fs.flatMap fun f => valueLazy f.value }
 
 /-- the abstraction Model/Prune.lean works on, derived from the input definitions:
     `_save_dependencies(root_type, field_type)` classifies the named type of every field -/
